@@ -1005,6 +1005,7 @@ class Parsent(object):
         self.errored = False
         self.error = None
         self.parms = None  # not those of the previous message on a reused parser
+        self.jsoned = None  # nor its content type: a message without Content-Type is not json
         self.trails = None
 
         while not self.started:
